@@ -4,6 +4,7 @@ CONSTANTS
   MaxProcs = 3
   Fault_CloseFds = FALSE
   Fault_KeepFds = FALSE
+  Fault_KeepFdsStdin = FALSE
   Fault_NoInherit = FALSE
   Fault_Rebind = FALSE
 INIT Init
@@ -14,4 +15,5 @@ INVARIANT Inv_Stable
 INVARIANT Inv_NoLeak
 INVARIANT Inv_ProjFaithful
 INVARIANT Inv_Count
+INVARIANT Inv_Stdin
 PROPERTY Act_Stable
